@@ -307,6 +307,9 @@ class Inventory:
 
     def _classify_std(self, s, fn, du, g, t, name, bid):
         args = t["args"]
+        if name in ("std::iter::Iterator::sum", "std::iter::Iterator::count") and args and (name.endswith("count") or _maps_to_len(du, du.val_operand(args[0]))):
+            s.status, s.reason = "exempt", "sum of in-memory lengths / element count: cannot overflow for inputs smaller than 2 GiB (stated assumption)"
+            return
         if re.fullmatch(r"core::slice::<impl \[T\]>::(windows|chunks|chunks_exact|rchunks|chunks_mut|chunk_by)", name) and len(args) == 2:
             k = const_int(strip_casts(du.val_operand(args[1])))
             if k is not None and k > 0:
@@ -417,6 +420,11 @@ class Inventory:
             why = self._add_bounded(fn, du, t, ops)
             if why:
                 s.status, s.reason = "exempt", why
+                return
+        if kind in ("Overflow(Add)", "Overflow(Mul)") and len(ops) == 2 and (_op_ty(fn, ops[0]) or _op_ty(fn, ops[1])) in ("usize", "u64", "i64", "i128", "u128"):
+            va_, vb_ = du.val_operand(ops[0]), du.val_operand(ops[1])
+            if _is_count_arith(du, va_) and _is_count_arith(du, vb_) and (kind == "Overflow(Add)" or const_int(strip_casts(va_)) is not None or const_int(strip_casts(vb_)) is not None):
+                s.status, s.reason = "exempt", "small-constant arithmetic over in-memory lengths / byte counts (inputs smaller than 2 GiB: stated assumption)"
                 return
         if kind == "Overflow(Sub)" and len(ops) == 2 and (_op_ty(fn, ops[0]) or _op_ty(fn, ops[1])) in ("i64", "isize", "i128"):
             # a signed >= 64-bit counter minus a small constant / byte count: 2^63 steps would be needed to reach the type's minimum
@@ -568,6 +576,9 @@ def _is_count(du, v, depth=0):
         if len(p) == 2 and p[0][0] == "d" and p[0][1] in ("Ok", "Continue") and p[1][0] == "f" and p[1][1] == 0:
             if len(ds) == 1 and ds[0][0] == "call":
                 return _is_count_result(du, du.val_call(ds[0][3], 0, ds[0][1]))
+            if len(ds) == 1 and ds[0][0] == "assign" and ds[0][3]["k"] == "use" and ds[0][3]["ops"][0].get("k") in ("copy", "move"):
+                o = ds[0][3]["ops"][0]
+                return _is_count(du, ("place", (o["l"], tuple(place_key(o)[1]) + p)), depth + 1)
             return False
         if not p and ds:
             for d in ds:
@@ -663,14 +674,59 @@ def _is_count_arith(du, v, depth=0):
                 return _is_count_arith(du, b, depth + 1)
     if v[0] == "call" and v[1] and any(v[1] == f or v[1].startswith(f + "::<") for f in ("std::cmp::min", "core::cmp::min", "std::cmp::Ord::min")) and len(v[2]) == 2:
         return _is_count_arith(du, v[2][0], depth + 1) or _is_count_arith(du, v[2][1], depth + 1)
+    if v[0] == "call" and v[1] == "std::iter::Iterator::sum" and v[2] and _maps_to_len(du, v[2][0]):
+        return True
+    if v[0] == "place" and not v[1][1]:
+        # an accumulator: every definition is a constant or itself plus count arithmetic
+        ds = du.defs.get(v[1][0], [])
+        if len(ds) >= 2 and depth < 3:
+            def terms(e, out):
+                e = strip_casts(e)
+                if e[0] == "binop" and e[1].startswith("Add"):
+                    terms(e[2], out); terms(e[3], out)
+                else:
+                    out.append(e)
+                return out
+            for d in ds:
+                e = du.val_rvalue(d[3], 0, d[1]) if d[0] == "assign" else (du.val_call(d[3], 0, d[1]) if d[0] == "call" else None)
+                if e is None:
+                    return False
+                ts = terms(e, [])
+                selfs = [t for t in ts if t == v]
+                rest = [t for t in ts if t != v]
+                if len(selfs) > 1 or not all(_is_count_arith(du, t, depth + 1) for t in rest):
+                    return False
+            return True
     return False
 
 
-def _is_count_result(du, v):
+def _maps_to_len(du, v, depth=0):
+    """`xs.iter().map(|x| x.field.len())`: a map whose closure returns a length"""
+    if depth > 4 or v[0] != "call":
+        return False
+    if v[1] == "std::iter::Iterator::map" and len(v[2]) == 2:
+        clo = v[2][1]
+        if clo[0] == "aggregate" and clo[1] == "closure":
+            from . import facts as _facts
+            F = _facts.CURRENT
+            cf = F.fns.get(clo[2]) if F is not None else None
+            if cf is not None:
+                cdu = du_of(cf)
+                rv = cdu.val_place((0, ()))
+                return _is_count_arith(cdu, rv)
+    return False
+
+
+def _is_count_result(du, v, depth=0):
+    if depth > 8:
+        return False
     if v[0] == "place":
         vv = du.val_place(v[1])
         if vv != v:
-            return _is_count_result(du, vv)
+            return _is_count_result(du, vv, depth + 1)
+    # `read(..).map_err(..)`, `Try::branch(read(..))`: still the read's result
+    if v[0] == "call" and v[1] and v[2] and (v[1].endswith("::map_err") or v[1].endswith("as std::ops::Try>::branch") or v[1].endswith("::or_else")):
+        return _is_count_result(du, v[2][0], depth + 1)
     if v[0] == "call" and v[1] and any(v[1].endswith(x) for x in ("::read_until", "::read_line", "::read", "::read_to_end", "::read_to_string")):
         return True
     return False
